@@ -9,10 +9,12 @@ PROP = {
         "the strconv oracles of the models are instantiated per case line by tables written by the harness from Go's own strconv (FormatFloat text per float element; ParseFloat result for every token of a parsed text that ParseFloat accepts; Quote text per localized string)",
     ],
     "assumptions": [
-        "oracle laws (premises of C13_encode_parse / C13_parse_encode_parse, validated by the harness on every generated float and localized string): ParseFloat(FormatFloat(v,'G',9|17,32|64)) has the same wire bits as v for non-NaN v in the item's range and is NaN for NaN; FormatFloat output is non-empty and uses only [0-9A-Za-z+.-]; strconv.Quote(s) = '\"'+s+'\"' exactly when the oracle predicate quote_plain s holds (it holds for printable ASCII without '\"' and '\\')",
-        "strconv.ParseInt/ParseUint (base 0 and 10, underscores, prefixes, range) and FormatInt/Itoa are MODELLED in Base/Decimal.v, validated by the Q case lines and by every parsed text",
-        "Unicode facts used by the parser model: unicode.IsSpace is the listed set; U+017F and U+0131 are the only non-ASCII code points whose upper case is an ASCII letter (strings.ToUpper on boolean tokens and on the BOOLEAN keyword)",
-        "the indent option ranges over strings of SML whitespace (space, tab, CR, LF); any other indent text is not parseable SML by construction and is outside the theorem",
-        "the grammar of the statement has no EmptyItem below the top level (an EmptyItem list child renders as an empty line and is not read back: C01 edge, DESIGN section 5 #6)",
+        "oracle laws — explicit premises of C13_encode_parse / C13_parse_encode_parse (and the _fixed variants), validated by the harness on every generated float element and localized string: (L1) FormatFloat(v,'G',9|17,32|64) is non-empty and uses only [0-9A-Za-z+.-]; (L2) ParseFloat of that text succeeds with the same wire value (F8: same bits; F4: same float32 bits), or with a NaN when v is a NaN; (L3) strconv.Quote(s) = '\"'+s+'\"' whenever the oracle predicate quote_plain s holds; (L4, second half only) ParseFloat(_,32) returns a value a float32 holds. C13_encode_parse_localized_refuted carries as premise what strconv.Quote returns for U+00A0.",
+        "float32 conversion (narrow32) is an uninterpreted function: only equality of its results is used, as secs2.Equal does for F4",
+        "strconv.ParseInt/ParseUint (base 0 and 10: prefixes, underscores, range errors) and FormatInt/Itoa/%02X are MODELLED in Base/Decimal.v and validated by the Q case lines and by every parsed / encoded text",
+        "Unicode facts used by the parser model: unicode.IsSpace is the listed set of code points; U+017F and U+0131 are the only non-ASCII code points whose upper case is an ASCII letter (strings.ToUpper on boolean tokens and on the BOOLEAN keyword); Go's range-over-string decoding as in Base/Utf8.v",
+        "the indent option ranges over strings of SML whitespace (space, tab, CR, LF); any other indent text is not parseable SML by construction and is outside the theorem; strict mode is on (the statement is about the strict encoder)",
+        "the grammar of the statement has no EmptyItem below the top level (an EmptyItem list child renders as an empty line and is not read back: C01 edge, DESIGN section 5 #6); items are within the secs2 size limits (otherwise they carry a deferred error and are no message body)",
+        "positive theorems for the code AS IT IS exclude ASCII items containing '>' (finding C13-ascii-gt, refuted with witness) and localized text that strconv.Quote escapes (finding C13-localized-quote, refuted with witness); the theorems named _fixed are about the repaired writer of fixes/C13-escape-gt.diff, not about the code",
     ],
 }
